@@ -1839,6 +1839,12 @@ impl KyroDbService for KyroDBServiceImpl {
 
         let engine = &self.state.engine;
 
+        // Serialise with insert / bulk paths of the same tenant: they decide "exists?" and reserve
+        // quota under this lock, so the lookup, the delete and the decrement below must not
+        // interleave with them (an overwrite racing a delete left the count one short).
+        let quota_lock = self.tenant_quota_lock(tenant.as_ref());
+        let _quota_guard = quota_lock.as_ref().map(|lock| lock.lock());
+
         let metadata = match engine.get_metadata(global_doc_id) {
             Some(m) => m,
             None => {
@@ -2459,6 +2465,11 @@ impl KyroDbService for KyroDBServiceImpl {
         let req = request.into_inner();
 
         let engine = &self.state.engine;
+
+        // Same lock as insert / delete of this tenant: the pre-count, the delete and the
+        // decrement must not interleave with a concurrent delete or overwrite of the same ids.
+        let quota_lock = self.tenant_quota_lock(tenant.as_ref());
+        let _quota_guard = quota_lock.as_ref().map(|lock| lock.lock());
 
         let result = match req.delete_criteria {
             Some(batch_delete_request::DeleteCriteria::Ids(id_list)) => {
